@@ -1,4 +1,5 @@
 import Cutplace.Spec.Sql
+import Cutplace.Proofs.LengthRange
 /-
 C19  Generated SQL DDL mirrors the CID.
 -/
@@ -73,15 +74,64 @@ theorem C19_int_fits_ansi_pl_partial (d : Dialect) (hd : d = .ansi ∨ d = .pl) 
   · have : ¬ m > 2147483647 := by omega
     simp [intColumnType, MAX_INTEGER, this, intTypes, canStore]; omega
 
-/-- The full statement ("a type able to store both limits") fails in each dialect: -/
+/-- The full statement ("a type able to store both limits") still fails in two places: -/
 theorem C19_transact_tinyint_counterexample :
     canStore .transact (intColumnType .transact (ansiIntLimit (-5) 5)) (-5) = false := by decide
 theorem C19_ansi_beyond_int_counterexample :
     canStore .ansi (intColumnType .ansi (ansiIntLimit 0 2147483648)) 2147483648 = false := by decide
-theorem C19_decimal_precision_counterexample :
-    canStore .transact (intColumnType .transact (ansiIntLimit 0 9223372036854775808)) 9223372036854775808 = false ∧
-    canStore .db2 (intColumnType .db2 (ansiIntLimit 0 9223372036854775808)) 9223372036854775808 = false ∧
-    canStore .pl (intColumnType .pl (ansiIntLimit 0 2147483648)) 2147483648 = false := by decide
+
+/-- every integer of a range whose sign-adjusted limit is `m` has fewer than `decimalDigitsFor m` + 1 digits -/
+theorem natAbs_lt_pow_digits (x m : Int) (hm : 0 ≤ m) (hx : -(m + 1) ≤ x ∧ x ≤ m) :
+    x.natAbs < 10 ^ (decimalDigitsFor m).toNat := by
+  unfold decimalDigitsFor natRepr
+  simp only [List.length_map, Int.toNat_natCast]
+  have h := (numDigits_le_iff (m + 1).toNat (numDigits (m + 1).toNat) (numDigits_pos _)).mp (Nat.le_refl _)
+  unfold numDigits at h
+  have : x.natAbs ≤ (m + 1).toNat := by omega
+  omega
+
+/-- **Beyond the integer types** (since b3fd201: the precision is the number of digits, before it was the limit itself):
+when the range exceeds the biggest integer type of the dialect, the column is `decimal(p[, 0])` / `number(p, 0)` with
+`p = decimalDigitsFor limit`, and it stores both limits whenever `p` is a precision the dialect allows. -/
+theorem C19_int_fits_decimal (d : Dialect) (hd : d ≠ .ansi) (lo hi : Int) (hle : lo ≤ hi)
+    (hbig : if d = .pl then ansiIntLimit lo hi > MAX_INTEGER else ansiIntLimit lo hi > MAX_BIGINT)
+    (hp : decimalDigitsFor (ansiIntLimit lo hi) ≤ maxPrecision d) :
+    canStore d (intColumnType d (ansiIntLimit lo hi)) lo = true ∧
+    canStore d (intColumnType d (ansiIntLimit lo hi)) hi = true := by
+  have h1 := signAdjusted_bound lo (ansiIntLimit lo hi) (by unfold ansiIntLimit; omega)
+  have h2 := signAdjusted_bound hi (ansiIntLimit lo hi) (by unfold ansiIntLimit; omega)
+  generalize ansiIntLimit lo hi = m at *
+  have hm0 : 0 ≤ m := by
+    split at hbig <;> simp only [MAX_INTEGER, MAX_BIGINT] at hbig <;> omega
+  have hlo := natAbs_lt_pow_digits lo m hm0 h1
+  have hhi := natAbs_lt_pow_digits hi m hm0 h2
+  have hp1 : 1 ≤ decimalDigitsFor m := by
+    unfold decimalDigitsFor natRepr
+    simp only [List.length_map]
+    have := numDigits_pos (m + 1).toNat
+    unfold numDigits at this
+    omega
+  cases d with
+  | ansi => exact absurd rfl hd
+  | pl =>
+    simp only [if_true, MAX_INTEGER] at hbig
+    simp [intColumnType, MAX_INTEGER, hbig, intTypes, canStore, hp1, hp, hlo, hhi]
+  | transact =>
+    simp only [reduceCtorEq, if_false, MAX_BIGINT] at hbig
+    have c1 : ¬ m ≤ 255 := by omega
+    have c2 : ¬ m ≤ 32767 := by omega
+    have c3 : ¬ m ≤ 2147483647 := by omega
+    have c4 : ¬ m ≤ 9223372036854775807 := by omega
+    simp [intColumnType, MAX_TINYINT, MAX_SMALLINT, MAX_INTEGER, MAX_BIGINT, c1, c2, c3, c4, intTypes, canStore, hp1, hp, hlo, hhi]
+  | db2 =>
+    simp only [reduceCtorEq, if_false, MAX_BIGINT] at hbig
+    have c2 : ¬ m ≤ 32767 := by omega
+    have c3 : ¬ m ≤ 2147483647 := by omega
+    have c4 : ¬ m ≤ 9223372036854775807 := by omega
+    simp [intColumnType, MAX_SMALLINT, MAX_INTEGER, MAX_BIGINT, c2, c3, c4, intTypes, canStore, hp1, hp, hlo, hhi]
+
+/-- the boundary case that needs the extra digit: `-10^19` has 20 digits although its sign-adjusted limit has 19 -/
+example : canStore .db2 (intColumnType .db2 (ansiIntLimit (-10000000000000000000) 5)) (-10000000000000000000) = true := by decide +kernel
 
 /-- non-vacuity -/
 example : canStore .transact (intColumnType .transact (ansiIntLimit (-32768) 32767)) (-32768) = true := by decide
